@@ -75,15 +75,20 @@ def _gen(job):
     return sorted(set(C.generate(ns(), count, seed)))
 
 
+def check_witness(data, show=False):
+    w = data["witness"]
+    out = _pair((w["n"], w["s"]))
+    if show:
+        print("replaying Mixed(%d,%d): steps RAM=%s DISK=%s optimum=%s" % (w["n"], w["s"], out.get("steps_RAM"), out.get("steps_DISK"), out.get("want")))
+    return [(("Mixed", pred), cfg, detail, "config") for pred, cfg, detail in out["viol"]]
+
+
 def run(prop, args):
     rep = R.Report(prop, args, RULE)
     if args.replay:
-        w = R.load_replay(args.replay)["witness"]
-        out = _pair((w["n"], w["s"]))
         rep.evaluations = 1
-        print("replaying Mixed(%d,%d): steps RAM=%s DISK=%s optimum=%s" % (w["n"], w["s"], out.get("steps_RAM"), out.get("steps_DISK"), out.get("want")))
-        for pred, cfg, detail in out["viol"]:
-            rep.add_violation(("Mixed", pred), cfg, detail)
+        for b, w, d, k in check_witness(R.load_replay(args.replay), show=True):
+            rep.add_violation(b, w, d, kind=k)
         return rep.finish()
     tier = args.tier
     NS = 8 if tier == "quick" else 11
@@ -115,6 +120,7 @@ def run(prop, args):
             rep.count("regions", "n>64")
         for pred, cfg, detail in out["viol"]:
             rep.add_violation(("Mixed", pred), cfg, detail)
+    R.run_regress(rep, check_witness)
     rep.assumptions = ["true optimum established by exhaustive search for n<=%d; beyond that by a DP validated against the search on that range" % NS]
 
     def shrink(b, w):
